@@ -74,6 +74,9 @@ def level_recipe(triple, rng, nmods=None, module_override=None, ovh_override=Non
             chain = list(ovh_override)
         elif n == 1 and (set(m1) | set(m3)) - set("N"):
             chain = [fit(m1, rng), fit(m3, rng)]
+        elif n == 1 and rng.random() < 0.3:
+            o = G.overhangs(1, rng)
+            chain = [o[0], dna.rc(o[0])]          # the vector's two overhangs are reverse complements of each other
         else:
             chain = G.overhangs(n + 1, rng, "ACGT" if attempt < 20 else "AT")
         if chain is None or len(set(chain)) != len(chain):
